@@ -283,3 +283,18 @@ Proof.
   - apply forallb_forall. intros e He. apply in_map_iff in He as [v [E _]]. subst e.
     apply lookup_ok_mirror. apply resolve_preserves_mirror; [apply conflict_keys_distinct|apply mirror_build].
 Qed.
+
+(* ---------- the prior-aware check at prior = [] is the single-merge check ---------- *)
+Lemma model_obs_p_nil : forall i, model_obs_p [] i = model_obs i.
+Proof. intro i. unfold model_obs_p, model_obs. cbv zeta. rewrite !app_nil_r. reflexivity. Qed.
+
+Lemma oracle_p_nil : forall i o, oracle_p [] i o = oracle i o.
+Proof.
+  intros i o. unfold oracle_p, oracle. cbv zeta. cbn [getc map]. rewrite !app_nil_r. reflexivity.
+Qed.
+
+Lemma check_case_p_nil : forall c, check_case_p ([], c) = check_case c.
+Proof. intro c. unfold check_case_p, check_case. rewrite model_obs_p_nil, oracle_p_nil. reflexivity. Qed.
+
+Theorem oracle_on_model_p_nil : forall i, oracle_p [] i (model_obs_p [] i) = true.
+Proof. intro i. rewrite oracle_p_nil, model_obs_p_nil. apply oracle_on_model. Qed.
